@@ -193,8 +193,12 @@ class HBatch(BatchBase):
         env = self.env
         if env.on_step is not None:
             env.on_step()
-        env.events.append(["body", self.kind, self.no])
-        if self.fault == "nested":
+        direct = any(b is self for b in env.direct)
+        if not direct:
+            env.events.append(["body", self.kind, self.no])     # (a direct item.value() flush has no scheduler events around it)
+        # (not combined with an out-of-band flush: the batch is then still in the scheduler's pending set while its
+        #  body runs, and a nested wait would flush it a second time -- a combination outside every listed property)
+        if self.fault == "nested" and not direct:
             # the flush body itself calls synchronously into asynq code that needs a flush of another kind
             others = [k for k in env.kinds if k != self.kind]
             if others:
@@ -243,7 +247,7 @@ class HItem(BatchItemBase):
             elif e[0] == "after" and open_windows:
                 open_windows.pop()
         mine = [self.batch.kind, self.batch.no]
-        if mine not in open_windows and not env.direct_flush:
+        if mine not in open_windows and not any(b is self.batch for b in env.direct):
             env.v("C05.window", "item %r completed outside the before/after window of its batch's flush (open: %r)" % (self.uid, open_windows))
         self.seen = ("err", self._error) if self._error is not None else ("ok", self._value)
 
@@ -270,7 +274,7 @@ class Env(object):
         self.start_seq = []
         self.svs = [AsyncScopedValue(["init", i]) for i in range(prog.get("nsv", 2))]
         self.objs = [Holder(i) for i in range(prog.get("nsv", 2))]
-        self.direct_flush = 0
+        self.direct = []       # batches being flushed / cancelled out of band (not by the scheduler), innermost last
         self.yield_only = not has_sync(prog["root"])
         self.check_c04 = False
         self.check_c06 = False
@@ -281,6 +285,7 @@ class Env(object):
         self.delivered_caught = 0
         self.ncands = 0
         self.ncancelled = 0
+        self.ndirect = 0
         self.on_step = None    # C16: harness-owned thread schedule (turnstile) hooks in here
         self.in_nested = 0     # > 0 while a flush body makes a synchronous call into asynq
         self.probes = []
@@ -292,6 +297,8 @@ class Env(object):
                     for leaf in walk_struct(st_["y"]):
                         if leaf[0] == "item":
                             kinds.add(leaf[1])
+                elif st_["op"] == "itemvalue":
+                    kinds.add(st_["item"][1])
         self.kinds = sorted(kinds)
         self.nctx_entered = 0
         self.ctx_span_flush = 0       # flushes during which >= 2 tasks were inside a recording context
@@ -361,7 +368,7 @@ class Env(object):
 
 def has_sync(task):
     for s in walk_stmts(task["body"]):
-        if s["op"] == "sync":
+        if s["op"] in ("sync", "itemvalue"):
             return True
         if s["op"] == "yield":
             for leaf in walk_struct(s["y"]):
@@ -631,6 +638,22 @@ def exec_block(env, rec, me, body):
                 env.waits.pop()
                 if scheduler.get_active_task() is not me:
                     env.v("C08.active", "get_active_task() is not task %r after its synchronous call returned" % (tid,))
+        elif op == "itemvalue":
+            # item.value() called directly inside a body: flushes the item's batch out of band, without the scheduler
+            leaf = st["item"]
+            it = HItem(env, leaf[1], leaf[2], leaf[3], leaf[4])
+            env.direct.append(it.batch)
+            try:
+                try:
+                    val = it.value()
+                finally:
+                    env.direct.pop()
+                rec.got.append(["ival", shape(val)])
+            except CATCHABLE as e:
+                if not st["catch"] or rec.closing:
+                    raise
+                rec.got.append(["ivalexc", canon(exc_key(e))])
+            env.ndirect += 1
         elif op == "cancel":
             b = env.cur.get(st["kind"])
             if b is not None and b.items and not b.is_flushed():
@@ -638,11 +661,11 @@ def exec_block(env, rec, me, body):
                 for j in b.items:
                     if not j.is_computed():
                         env.item_action[j.uid] = ["raised", ["cancel", b.kind, b.no]]
-                env.direct_flush += 1
+                env.direct.append(b)
                 try:
                     b.cancel(err)
                 finally:
-                    env.direct_flush -= 1
+                    env.direct.pop()
                 env.ncancelled += 1
         elif op == "read":
             if env.ov_span_flush:
